@@ -147,6 +147,12 @@ func verifyUnit(p *Prog, fi *FuncInfo, split *int64) (res *UnitResult) {
 		}
 		x.modEl = el
 	}
+	if len(fi.DynPreserves) > 0 {
+		x.dynLocs, _ = x.evalLocs(st, fi.DynPreserves, true)
+		for _, e := range fi.DynPreserves {
+			x.assumed = append(x.assumed, fmt.Sprintf("%s assumes calls through function values leave %s unchanged", fi.Name(), x.nodeText(e)))
+		}
+	}
 	if len(fi.Decreases) > 0 {
 		x.ghostDec = x.evalDecreases(st, fi.Decreases)
 	}
